@@ -256,8 +256,13 @@ class LessParser(object):
                     recurse = LessParser(
                         importlvl=self.importlvl + 1,
                         verbose=self.verbose,
-                        scope=self.scope)
-                    recurse.parse(filename=filename, debuglevel=0)
+                        scope=self.scope,
+                        fail_with_exc=self.fail_with_exc)
+                    try:
+                        recurse.parse(filename=filename, debuglevel=0)
+                    except CompilationError as e:
+                        # errors of the imported file are errors of this one
+                        self.register.register(str(e))
                     p[0] = recurse.result
                 else:
                     err = "Cannot import '%s', file not found" % filename
